@@ -98,11 +98,14 @@ Definition lkey_of_sx (x : sx) : option lkey :=
 Definition rkey_of_sx (x : sx) : option rkey :=
   match x with L [] => Some RNR | L [A i] => Some (RFld (N.to_nat i)) | _ => None end.
 
+(* (kind lhs rhs) = a join table without a header; (kind lhs rhs (n)) = its header has n names *)
 Definition join_of_sx (x : sx) : option join_spec :=
-  match x with
-  | L [A k; lhs; rhs] =>
+  let mk k lhs rhs jh :=
       omap (list_of_sx lkey_of_sx lhs) (fun l => omap (list_of_sx rkey_of_sx rhs) (fun r =>
-        Some {| j_kind := match k with 0%N => JInner | 1%N => JLeft | _ => JStrict end; j_lhs := l; j_rhs := r |}))
+        Some {| j_kind := match k with 0%N => JInner | 1%N => JLeft | _ => JStrict end; j_lhs := l; j_rhs := r; j_bhdr := jh |})) in
+  match x with
+  | L [A k; lhs; rhs] => mk k lhs rhs None
+  | L [A k; lhs; rhs; jh] => omap (option_of_sx nat_of_sx jh) (fun h => mk k lhs rhs h)
   | _ => None
   end.
 
